@@ -41,6 +41,8 @@ WITNESSES = [
     ("F35c", "x=1\n@\\\ndec\nclass C: pass\n"),
     ("F36", "if y:\n\tx = 1 \\\n\t"),
     ("F37", "import a\n    # \\\n# c\n    # \\\n\x0c"),
+    ("F3tail", "# type: ignore\n\n\'\'\'x\n  # z\n\n# tail \'\'\';import m;os = 1 \\\n \t \n\n"),
+    ("F40", "x = 1  # c\n\\\ntext \\\n# tail; #!x\n"),
     ("plain", "# 1\nprint(2)\n# 3\n# 4\nprint(5)\nx=[6,\n 7]\n# 8\n"),
     ("lead", "\n\n# c\n\nx=1\n\n\n# d\n\n"),
     ("cont", "x = 1 \\\n\ny = 2\n# c \\\n\nz = 3"),
@@ -246,8 +248,27 @@ def oracle(c, src, tree, im):
     return bad
 
 
-def classify_known(ctx, c, clause, detail):
-    return None
+def f40_logical_line_starts_with_backslash(src):
+    """classifier of known finding F40: a physical line that holds nothing but a continuation
+    backslash and is not inside a string - i.e. a logical line that *begins* with backslash-newline.
+    CPython reports the statement's start after it; _split_code_lines leaves the lone backslash in
+    the preceding statement's piece, which then does not parse alone."""
+    lines = src.split("\n")
+    cands = [i + 1 for i, l in enumerate(lines) if l.strip(" \t\x0c") == "\\"]
+    if not cands:
+        return False
+    inside = set()
+    try:
+        for t in tokenize.generate_tokens(io.StringIO(src).readline):
+            if t.type in (tokenize.STRING, tokenize.FSTRING_MIDDLE, tokenize.FSTRING_START, tokenize.FSTRING_END) or t.end[0] > t.start[0]:
+                inside.update(range(t.start[0], t.end[0] + 1))
+    except Exception:
+        return False
+    tree = ast.parse(src)
+    for n in ast.walk(tree):
+        if isinstance(n, ast.JoinedStr):
+            inside.update(range(n.lineno, n.end_lineno + 1))
+    return any(i not in inside for i in cands)
 
 
 # ---------------------------------------------------------------------------------------------
@@ -282,7 +303,11 @@ def compare_one(ctx, c, p, im, mv):
         short = {"kind": "corpus", "path": c["path"], "sp": c["sp"]}
     # oracle on the implementation's result
     for clause, detail in oracle(c, p["src"], p["tree"], im):
-        ctx.violation(clause, short, detail)
+        if clause == "syntax_aligned" and f40_logical_line_starts_with_backslash(p["src"]):
+            ctx.known_hit("F40", "a logical line beginning with a lone continuation backslash: the backslash line stays in the preceding statement's piece (%s)" % detail[:90])
+            ctx.bump("F40")
+        else:
+            ctx.violation(clause, short, detail)
     if mv is not None:
         ctx.bump("model_evaluated")
         if not mv["wf"]:
